@@ -115,11 +115,18 @@ fn case_text(cx: &mut Ctx, i: u64, examples: &[(String, String)]) -> (String, &'
             cfg.max_stmts = 3;
             cfg.max_params = (i % 3) as usize;
             let g = generate(rng.clone(), cfg, &cx.golden);
-            let text = match prepare(cx, g, &mut rng, &Style::plain()) {
+            // half of the bases in a random layout: tabs, CRLF, comments (also non-ASCII) in
+            // front of and inside calls, so that span arithmetic meets multi-byte characters
+            let style = if i % 2 == 0 { Style::plain() } else { Style::random(&mut rng) };
+            let text = match prepare(cx, g, &mut rng, &style) {
                 Ok(p) => p.text().to_string(),
                 Err(_) => "fn main() { }".to_string(),
             };
             let base = if nesting_depth(&text) <= MAX_DEPTH { text } else { "fn main() { let x: u8 = 1; }".to_string() };
+            if kind == 1 {
+                // the styled program itself: every stage behind the front end is reached
+                return (base, "program");
+            }
             (mutate_text(&base, &mut rng), "program")
         }
         4 => {
